@@ -21,6 +21,7 @@ def oracle(line: str, obs: Obs):
     last_rx_conn = {}
     inflight = {}           # conn -> set of unanswered hbh delivered to apps
     ident = {}              # conn -> host identity
+    dpr_seen = set()
     for ev, lines in obs.blocks:
         t = ev.split(" ")
         if t[0] == "rx":
@@ -29,6 +30,8 @@ def oracle(line: str, obs: Obs):
                 m = parse_msg(d)
                 if m["R"]:
                     last_rx_conn[(m["cmd"], m["hbh"], m["e2e"])] = c
+                if m["R"] and m["cmd"] == 282 and state.get(c) in ("READY", "WAITDWA"):
+                    dpr_seen.add(c)        # the peer is leaving: the connection accepts nothing more, whatever arrives later
         for l in lines:
             if l.startswith("APP ") and " REQ " in l:
                 d = kv(l)
@@ -46,7 +49,7 @@ def oracle(line: str, obs: Obs):
                 outs = [(l.split(" ")[1], kv(l)) for l in lines if l.startswith("OUT ")]
                 ans_outs = [(cc, d) for cc, d in outs if d["R"] == "0" and int(d["hbh"]) == key[1] and int(d["e2e"]) == key[2]]
                 raised = any(l.startswith(f"APP {a} RAISE NotRoutable") for l in lines)
-                ok_state = state.get(c) in ("READY", "WAITDWA") and live.get(c) == "1"
+                ok_state = state.get(c) in ("READY", "WAITDWA") and live.get(c) == "1" and c not in dpr_seen
                 first = (c, key) not in answered
                 sig = "equal_hbh_on_two_connections" if others_same_hbh else None
                 # the peer has two handshaken connections and the answer went out on the other one
@@ -88,6 +91,14 @@ def scenarios(rng: random.Random, tier: str):
     cfg = ("NODE host=node.local;realm=realm.local;idle=9999;peer:peer1.x,realm.local,0,0,30,1,0,-,-,-,-;"
            "peer:peer2.x,realm.local,0,0,30,1,0,-,-,-,-;peer:peer3.x,realm.local,0,0,30,1,0,-,-,-,-;app:4,1,0,b,0,0+1+2,-")
     names = ["peer1.x", "peer2.x", "peer3.x"]
+    # the requester sends a DPR while a DWR of ours is unanswered, its DWA arrives afterwards, then the application answers
+    idle_cfg = cfg.replace("idle=9999", "idle=3;dwa=50")
+    for order in (("dpr", "dwa"), ("dwa", "dpr")):
+        evs = ["start", "acc", "rx 0 " + nodegen.cer("peer1.x", "4", n(), n()), "rx 0 " + nodegen.ccr(n(), n(), "peer1.x"), "adv 4"]
+        for o in order:
+            evs.append("rx 0 " + (nodegen.dpr(n(), n(), "peer1.x") if o == "dpr" else nodegen.dwa(1001, 7, "peer1.x")))
+        evs.append("ans 0 0 2001")
+        out.append(idle_cfg + " | " + " | ".join(evs))
     for rep in range(120 if tier == "quick" else 2500):
         npeers = rng.randrange(1, 4)
         pre = cfg + " | start | " + " | ".join(f"acc | rx {i} " + nodegen.cer(names[i], "4", n(), n()) for i in range(npeers))
